@@ -14,9 +14,9 @@ def run(ctx):
                  MaxWrites=4, MaxPubs=4, MaxTicks=6, Dts={1}, AckModes={"none", "all"}, MaxDepth=2 + (9 if q else 11))
     two = consts(SubIds={1, 2}, ItemIds={1, 2}, Nodes={1, 2}, Vals={0, 1}, Acts={"Write", "Pub", "Tick", "DeleteItem", "DeleteSub", "SetPubMode", "SetMode"},
                  Scripts=scripts([s2]), MaxWrites=3, MaxPubs=4, MaxTicks=5, Dts={1, 2}, AckModes={"none"},
-                 MaxDepth=5 + (6 if q else 8))
+                 MaxDepth=5 + (6 if q else 7))
     ctx.model_check("design_one", "MCSubs", dict(one, Mons={"C21"}), ["C21"], view="MView")
-    ctx.model_check("design_two", "MCSubs", dict(two, Mons={"C21"}), ["C21"], view="MView")
+    ctx.model_check("design_two", "MCSubs", dict(two, Mons={"C21"}), ["C21"], view="MView", timeout=3000)
     ctx.model_check("dev_drop", "MCSubs", dict(one, Mons={"C21"}, DevDropOnNone=True), ["C21"], view="MView",
                     expect_violation="C21")
     gens = []
